@@ -36,6 +36,7 @@ Record template := {
   t_fn : string;                 (* enclosing Rust function *)
   t_index : nat;                 (* running index inside the file *)
   t_line : nat;
+  t_var : string;                (* the Rust variable the template is bound to (`let x = quote!..`, `x: quote!..`), "" if none *)
   t_tokens : list ttok }.
 
 (* flat view with explicit brackets: the classifier is a left-to-right automaton with a frame stack *)
@@ -108,7 +109,8 @@ Definition show_head (h : head) : string :=
   end.
 
 Inductive event := EHead (h : head) | EBind (x : string) | EMethod (x : string)
-                 | EGen (x : string).   (* generic parameter declared by the template; lifetimes as "'a" *)
+                 | EGen (x : string)    (* generic parameter declared by the template; lifetimes as "'a" *)
+                 | EPat (x : string).   (* identifier introduced in PATTERN position: fn parameter, let, match-arm binding *)
 
 Inductive fkind :=
 | KTop | KParen | KBracket | KBrace
@@ -203,22 +205,22 @@ Definition classify_id (st : state) (x : string) (nx : ftok) : list event :=
     else if is_p nx "!" then mk HMacro
     else if is_any_open nx && negb (is_open nx Bracket) then mk HPlain           (* Variant(..) / Struct { .. } *)
     else if is_p nx ":" && fkind_eqb k KPatBrace && (is_open p Brace || is_p p ",") then []   (* field: pattern *)
-    else if is_p nx "@" then [EBind x]
-    else if local_like x then [EBind x]
+    else if is_p nx "@" then [EBind x; EPat x]
+    else if local_like x then [EBind x; EPat x]
     else mk HPlain                                                      (* unit variant / constant *)
   else if s_use st && is_id p "as" then [EBind x]                       (* use .. as x *)
   else if existsb (is_id p) decl_kw_nobind then []                      (* fn x / type X : declaration *)
   else if existsb (is_id p) decl_kw_bind then [EBind x]                 (* item declared in the template *)
   else if is_id p "mut" && is_id pp "static" then [EBind x]
   else if is_id p "const" && negb (is_p pp "*") then [EBind x]          (* const X: T = ..  (not `*const T`) *)
-  else if is_id p "ref" then [EBind x]
-  else if is_id p "mut" && is_id pp "ref" then [EBind x]
-  else if is_p nx "@" then [EBind x]                                    (* x @ pattern *)
+  else if is_id p "ref" then [EBind x; EPat x]
+  else if is_id p "mut" && is_id pp "ref" then [EBind x; EPat x]
+  else if is_p nx "@" then [EBind x; EPat x]                            (* x @ pattern *)
   else if is_p nx "=>" && local_like x &&
-          (is_p p "" || is_open p Brace || is_p p "," || is_p p "|") then [EBind x]   (* match arm `x => ..` *)
+          (is_p p "" || is_open p Brace || is_p p "," || is_p p "|") then [EBind x; EPat x]   (* match arm `x => ..` *)
   else if is_p nx ":" && fkind_eqb k KParams &&
           (is_open p Paren || is_p p "," ||
-           (is_id p "mut" && (is_open pp Paren || is_p pp ","))) then [EBind x]     (* fn parameter *)
+           (is_id p "mut" && (is_open pp Paren || is_p pp ","))) then [EBind x; EPat x]     (* fn parameter *)
   else if is_p nx ":" && fkind_eqb k KBrace && negb (s_where st) &&
           (is_open p Brace || is_p p ",") then []                       (* field name in a struct expr/decl *)
   else if (f_gen (s_cur st) =? 1)%nat && (is_p p "<" || is_p p ",") &&
@@ -430,41 +432,109 @@ Definition fmt_ident_ok (s : string) : bool :=
 Definition generic_params (t : template) : list string :=
   flat_map (fun e => match e with EGen x => [x] | _ => [] end) (events t).
 
+(* ---- identifiers in pattern position.  rustc resolves an identifier pattern at the call site: if a unit struct, unit
+   variant or constant of that name is in scope, `x` is not a binding but a PATH pattern (E0530 for parameters / let /
+   match bindings that would shadow it, E0308 otherwise).  Names with the `__` prefix are the macro's own namespace. *)
+Definition pattern_binders (t : template) : list string :=
+  flat_map (fun e => match e with EPat x => [x] | _ => [] end) (events t) ++ name_template t.
+
+Fixpoint all_digits (s : string) : bool :=
+  match s with
+  | EmptyString => true
+  | String c r => let n := nat_of_ascii c in ((48 <=? n)%nat && (n <=? 57)%nat) && all_digits r
+  end.
+
+Fixpoint strip_prefix (p s : string) : option string :=
+  match p, s with
+  | EmptyString, _ => Some s
+  | String a p', String b s' => if Ascii.eqb a b then strip_prefix p' s' else None
+  | _, EmptyString => None
+  end.
+
+(* `_0`, `_1`, .. / `field_0`, .. : format_ident!("_{i}") / format_ident!("field_{n}") *)
+Definition numbered (p s : string) : bool :=
+  match strip_prefix p s with
+  | Some r => negb (String.eqb r "") && all_digits r
+  | None => false
+  end.
+
+(* The ONE listed class (/verif/KNOWN_FINDINGS.json key `binder-name-captured`): the binders without the `__` prefix. *)
+Definition known_captured_binders : list string :=
+  [ "rhs"; "conv"; "request"; "source"; "backtrace"; "_variant"; "src"; "idx"; "iter"; "value"; "val" ].
+
+Definition binder_listed (x : string) : bool :=
+  mem x known_captured_binders || numbered "_" x || numbered "field_" x.
+
 (* ---- paths: a left-to-right fold independent of the frame automaton.
    A path is a maximal run  [::] seg (:: seg)*  ; segments are identifiers or interpolations ("#x");
    a leading `::` gives the first segment ""; a path continuing a `<T as Tr>` qualifier starts with "<>". *)
-Record pstate := { p_cur : list string (* reversed *); p_sep : bool; p_prev : ftok }.
+(* an open `<`: a turbofish (`path::<..>`, the path continues after it) or a qualifier / generic-argument list *)
+Record aframe := { a_turbo : bool; a_as : bool; a_dm : bool; a_fresh : bool; a_saved : list string }.
+
+Record pstate := { p_cur : list string (* reversed *); p_sep : bool; p_prev : ftok;
+                   p_angles : list aframe;
+                   p_q : string (* tag of the `<..>` just closed: "<as>" qualified, "<dm>" a derive_more type, "<>" other *) }.
 
 Definition path_kw_ok : list string := ["self"; "Self"; "crate"; "super"].
 
 Definition pflush (macro : bool) (cur : list string) : list (bool * list string) :=
   match cur with
   | [] => []
-  | [x] => if String.eqb x "" || String.eqb x "<>" then [] else [(macro, [x])]   (* a lone `::` (turbofish) is no path *)
+  | [x] => if String.eqb x "" || String.eqb x "<>" || String.eqb x "<as>" || String.eqb x "<dm>" then []
+           else [(macro, [x])]                                          (* a lone `::` (turbofish) is no path *)
   | _ => [(macro, rev cur)]
   end.
 
+(* the first token inside an open `<` decides whether the type is a derive_more path; `as` marks a qualified path *)
+Definition touch_angles (l : list aframe) (t : ftok) : list aframe :=
+  match l with
+  | f :: r =>
+      {| a_turbo := a_turbo f;
+         a_as := a_as f || is_id t "as";
+         a_dm := if a_fresh f then is_id t "derive_more" else a_dm f;
+         a_fresh := if a_fresh f then (is_p t "&" || is_p t "&&" || is_id t "mut" || is_p t "'") else false;
+         a_saved := a_saved f |} :: r
+  | [] => []
+  end.
+
+Definition mkp (cur : list string) (sep : bool) (t : ftok) (angles : list aframe) (q : string) : pstate :=
+  {| p_cur := cur; p_sep := sep; p_prev := t; p_angles := angles; p_q := q |}.
+
 Definition pstep (st : pstate) (t : ftok) : pstate * list (bool * list string) :=
   let cur := p_cur st in
+  let ang := touch_angles (p_angles st) t in
+  let q := p_q st in
   let seg (x : string) (startable : bool) :=
-    if p_sep st then ({| p_cur := x :: cur; p_sep := false; p_prev := t |}, [])
+    if p_sep st then (mkp (x :: cur) false t ang q, [])
     else if is_p (p_prev st) "." || is_p (p_prev st) "'" || negb startable
-         then ({| p_cur := []; p_sep := false; p_prev := t |}, pflush false cur)
-         else ({| p_cur := [x]; p_sep := false; p_prev := t |}, pflush false cur) in
+         then (mkp [] false t ang q, pflush false cur)
+         else (mkp [x] false t ang q, pflush false cur) in
   match t with
   | FId x => seg x (negb (mem x keywords) || mem x path_kw_ok)
   | FInterp x => seg ("#" ++ x)%string true
   | FPunct s =>
       if String.eqb s "::" then
         (match cur with
-         | [] => ({| p_cur := [if is_p (p_prev st) ">" then "<>" else ""]; p_sep := true; p_prev := t |}, [])
-         | _ => if p_sep st then ({| p_cur := []; p_sep := false; p_prev := t |}, pflush false cur)
-                else ({| p_cur := cur; p_sep := true; p_prev := t |}, [])
+         | [] => (mkp [if is_p (p_prev st) ">" then q else ""] true t ang q, [])
+         | _ => if p_sep st then (mkp [] false t ang q, pflush false cur)
+                else (mkp cur true t ang q, [])
          end)
-      else if String.eqb s "!" && negb (p_sep st) then
-        ({| p_cur := []; p_sep := false; p_prev := t |}, pflush true cur)
-      else ({| p_cur := []; p_sep := false; p_prev := t |}, pflush false cur)
-  | _ => ({| p_cur := []; p_sep := false; p_prev := t |}, pflush false cur)
+      else if String.eqb s "<" then
+        (if p_sep st
+         then (* turbofish: the path continues after the matching `>` *)
+              (mkp [] false t ({| a_turbo := true; a_as := false; a_dm := false; a_fresh := true; a_saved := cur |} :: p_angles st) q, [])
+         else (mkp [] false t ({| a_turbo := false; a_as := false; a_dm := false; a_fresh := true; a_saved := [] |} :: p_angles st) q,
+               pflush false cur))
+      else if String.eqb s ">" then
+        (match p_angles st with
+         | f :: r =>
+             if a_turbo f then (mkp (a_saved f) false t r q, pflush false cur)
+             else (mkp [] false t r (if a_as f then "<as>" else if a_dm f then "<dm>" else "<>"), pflush false cur)
+         | [] => (mkp [] false t [] "<>", pflush false cur)
+         end)
+      else if String.eqb s "!" && negb (p_sep st) then (mkp [] false t ang q, pflush true cur)
+      else (mkp [] false t ang q, pflush false cur)
+  | _ => (mkp [] false t ang q, pflush false cur)
   end.
 
 Fixpoint prun (st : pstate) (l : list ftok) : list (bool * list string) :=
@@ -474,7 +544,7 @@ Fixpoint prun (st : pstate) (l : list ftok) : list (bool * list string) :=
   end.
 
 Definition paths (t : template) : list (bool * list string) :=
-  prun {| p_cur := []; p_sep := false; p_prev := START |} (flatten (t_tokens t)).
+  prun {| p_cur := []; p_sep := false; p_prev := START; p_angles := []; p_q := "<>" |} (flatten (t_tokens t)).
 
 (* every macro invoked by a template, with its full path *)
 Definition macro_paths (t : template) : list (list string) :=
@@ -515,6 +585,61 @@ Definition dm_path_exported (exports : list (list string)) (p : list string) : b
       else mem_path [s2] exports
   | _ => false
   end.
+
+(* ---- type-relative associated paths  Q :: .. :: name  whose last segment is a name the MACRO chose (not an
+   interpolation).  `<Ty as path::Trait>::name` names the trait: closed.  `<Ty>::name`, `Ty::name`, `Self::name` look `name`
+   up BY NAME on the type: an inherent associated item of the user's type wins, and every trait in the caller's scope
+   that has an item of that name for the type is a candidate (E0034) - exactly like a dot call on a user-typed receiver. *)
+Definition type_like_seg (s : string) : bool :=
+  match s with String c _ => let n := nat_of_ascii c in ((65 <=? n)%nat && (n <=? 90)%nat) | _ => false end.
+
+Definition last_seg (p : list string) : string := last p "".
+
+Definition assoc_paths (t : template) : list (list string) :=
+  flat_map (fun p : bool * list string =>
+              match snd p with
+              | _ :: _ :: _ => if fst p || is_interp_seg (last_seg (snd p)) then [] else [snd p]
+              | _ => []
+              end) (paths t).
+
+(* is the template a qualifier that pins the trait or an absolute derive_more path?  `<T as Tr>` / `derive_more::..` *)
+Definition qualifier_safe (t : template) : bool :=
+  match t_tokens t with
+  | TPunct a :: rest =>
+      (String.eqb a "<" && existsb (fun x => match x with TId y => String.eqb y "as" | _ => false end) rest) ||
+      (String.eqb a "::" && match rest with TId y :: _ => String.eqb y "derive_more" | _ => false end)
+  | TId y :: TPunct c :: _ => String.eqb y "derive_more" && String.eqb c "::"
+  | _ => false
+  end.
+
+(* an interpolated qualifier `#x` is safe iff x is bound (as `x` or the collection `xs`) to templates that are all safe *)
+Definition var_safe (ts : list template) (x : string) : bool :=
+  let ds := filter (fun t => String.eqb (t_var t) x || String.eqb (t_var t) (x ++ "s")%string) ts in
+  negb (match ds with [] => true | _ => false end) && forallb qualifier_safe ds.
+
+Definition interp_name (s : string) : string := match s with String _ r => r | EmptyString => EmptyString end.
+
+Definition assoc_path_closed (ts : list template) (gp : list string) (p : list string) : bool :=
+  match p with
+  | r :: _ =>
+      if String.eqb r "<as>" || String.eqb r "<dm>" then true
+      else if String.eqb r "<>" then false
+      else if String.eqb r "Self" then type_like_seg (last_seg p)       (* associated TYPE of the enclosing impl's trait *)
+      else if is_interp_seg r then var_safe ts (interp_name r)
+      else true   (* `derive_more::..`, `::crate::..`, a generic parameter, or a bare root: judged as a head by allowed_head *)
+  | [] => true
+  end.
+
+Definition assoc_offenders_of (ts : list template) (t : template) : list (string * string) :=
+  map (fun p => (t_file t, (hd "" p ++ "::" ++ last_seg p)%string))
+      (filter (fun p => negb (assoc_path_closed ts (generic_params t) p)) (assoc_paths t)).
+
+Definition assoc_offenders (ts : list template) : list (string * string) := flat_map (assoc_offenders_of ts) ts.
+
+Definition assoc_key (o : string * string) : string := (fst o ++ ":" ++ snd o)%string.
+
+(* none on the current tree *)
+Definition known_assoc_sites : list string := [].
 
 (* ---- method calls `recv . name (` : the receiver decides whether the call can observe the caller's scope
    (for a user-typed receiver the trait must be in scope at the call site, and an inherent method of the user's
@@ -747,6 +872,20 @@ Definition introduced_generics (ts : list template) (fmts : list (string * nat *
 (* no exception left: `fn provide<'_request>` of error.rs became `'__derive_more_request` in /repo df4f803 *)
 Definition known_non_dunder_generics : list string := [].
 
+Definition binder_closed (x : string) : bool := starts_dunder x.
+
+Definition binder_ok (x : string) : bool := binder_closed x || binder_listed x.
+
+(* the meaning of an identifier pattern `x` in a scope: a binding, unless a unit struct / unit variant / constant called x
+   is in scope (value namespace), in which case it is a path pattern referring to that item *)
+Inductive patmeaning := PBinding (x : string) | PPathTo (n : N).
+
+Definition resolve_pattern_ident (unit_items : string -> option N) (x : string) : patmeaning :=
+  match unit_items x with
+  | Some n => PPathTo n
+  | None => PBinding x
+  end.
+
 (* ------------------------------------------------------------------ 3. name resolution *)
 
 Inductive item :=
@@ -817,4 +956,12 @@ Definition resolve_method (inherent : option N) (provides : N -> bool) (sc : msc
             | [c] => MTrait c
             | _ => MAmbiguous
             end
+  end.
+
+(* a path `Q::name`: trait-qualified (`<Ty as Tr>::name`, `path::Tr::name`) names the trait's item directly;
+   type-relative (`<Ty>::name`, `Ty::name`, `Self::name`) is looked up by name like a method *)
+Definition resolve_assoc (qualified : option N) (inherent : option N) (provides : N -> bool) (sc : mscope) : mres :=
+  match qualified with
+  | Some tr => MTrait tr
+  | None => resolve_method inherent provides sc
   end.
